@@ -614,6 +614,37 @@ theorem C02_flat_guarded_instance (down : Downstream) :
       = gateway Flat.Example.ctx {} ⟨.query, "", [], [Flat.Q "Animal" "animal" Flat.Example.fs]⟩ none down :=
   C02_flat_guarded Flat.Example.fam svcs1 schemaA1 schemaB svcFam1 (by rfl) (by rfl) down
 
+theorem C02_flat_list_guarded_instance (down : Downstream) :
+    gateway FlatList.Example.ctx {} FlatList.Example.op none (C02.guardValid svcsL down)
+      = gateway FlatList.Example.ctx {} FlatList.Example.op none down :=
+  C02_flat_list_guarded FlatList.Example.fam svcsL schemaAL schemaB svcFamL (by rfl) (by rfl) down
+
+/-- non-vacuity of `C02_flat_mutation_every_downstream` / `C02_flat_mutation_guarded`: `Mut.Example`,
+    every downstream -/
+theorem C02_flat_mutation_every_downstream_instance (down : Downstream) (res : GwResult)
+    (hg : gateway Mut.Example.ctx {} (Mut.op Mut.Example.ctx Mut.Example.ms) none down = .ok res) :
+    ∀ cl ∈ res.calls, ∀ rq ∈ cl.batch,
+      C02.ValidFor (C02.schemaAt msvcs cl.url) rq = true ∧
+      rq.header.kind = .mutation ∧ rq.header.varDecls = [] ∧ rq.vars = [] :=
+  C02_flat_mutation_every_downstream Mut.Example.fam msvcs msvcFam down res hg
+
+theorem C02_flat_mutation_guarded_instance (down : Downstream) :
+    gateway Mut.Example.ctx {} (Mut.op Mut.Example.ctx Mut.Example.ms) none (C02.guardValid msvcs down)
+      = gateway Mut.Example.ctx {} (Mut.op Mut.Example.ctx Mut.Example.ms) none down :=
+  C02_flat_mutation_guarded Mut.Example.fam msvcs msvcFam down
+
+/-- non-vacuity of `C02_flat_followup_every_downstream` / `C02_flat_followup_guarded`: `MutO.Example`,
+    every downstream -/
+theorem C02_flat_followup_every_downstream_instance (down : Downstream) (res : GwResult)
+    (hg : gateway MutO.Example.ctx {} MutO.Example.opEx none down = .ok res) :
+    ∀ cl ∈ res.calls, ∀ rq ∈ cl.batch, C02.MutORequestOK osvcs "A" "B" "Animal" MutO.Example.fs cl.url rq :=
+  C02_flat_followup_every_downstream MutO.Example.fam osvcs osvcFam down res hg
+
+theorem C02_flat_followup_guarded_instance (down : Downstream) :
+    gateway MutO.Example.ctx {} MutO.Example.opEx none (C02.guardValid osvcs down)
+      = gateway MutO.Example.ctx {} MutO.Example.opEx none down :=
+  C02_flat_followup_guarded MutO.Example.fam osvcs osvcFam down
+
 end Instances
 
 /-! ## checks by evaluation (tests of the definitions, not obligations)
